@@ -53,16 +53,20 @@ Mutations caught (each in a private copy, VF_REPO=/tmp/wt-dml):
      ``for sentinel_keys in sorted(rows_by_sentinel)`` (ordered by sentinel
      value instead of parameter order)
   3. sql/compiler.py _deliver_insertmanyvalues_batches:
-     ``compiled_batches[0:batch_size] = []`` -> ``[0:batch_size - 1]``-style
-     off-by-one in the compiled (sentinel) slice
+     ``compiled_batches[0:batch_size] = []`` -> ``[0 : batch_size - 1]``
+     (off-by-one in the compiled/sentinel slice)
   4. sql/compiler.py: last short batch dropped (``while batches`` ->
-     ``while len(batches) >= batch_size``)
+     ``while len(batches) >= batch_size or ...first``)
   5. engine/default.py: ``_scalar_sentinel_proc`` result processor not applied
      (Uuid sentinel can no longer be matched)
   6. sql/compiler.py: downgrade condition ``imv.sentinel_columns is None``
      removed (batched without sentinel while order was requested)
   7. sql/compiler.py: ``"_IMV_VALUES_COUNTER", str(i)`` -> ``str(0)`` in the
-     embedded counter of the INSERT..SELECT form
+     embedded counter of the INSERT..SELECT form (caught by the compile-level
+     interpreter; SQLite's stable ORDER BY hides it in execution)
+  8. sql/compiler.py named branch: ``param[key]`` -> ``batch[0][key]`` (first
+     row's values for every row of a batch)
+  9. sql/compiler.py numeric branch: ``end = ... + start`` -> ``... + start - 1``
 """
 from __future__ import annotations
 
@@ -112,7 +116,8 @@ META = dict(
     "batches the real batcher yields, not by execution.",
     rule="case = (table style, engine configuration, route, n, page size, page-size channel); evaluated once per answer "
     "plan (product over batches of all permutations); non-trivial = the statement was really batched with >=2 rows in a "
-    "batch and an answer different from SQLite's own order was served (or, compile-level, >=2 batches or >=2 rows per batch)",
+    "batch and an answer different from SQLite's own order was served; or (no RETURNING) the rows were sliced into >=2 multi-VALUES "
+    "statements; or, compile-level, a batch with >=2 rows",
     assumptions=[
         "a server may return the RETURNING rows of one INSERT statement in any order, but returns exactly the inserted rows",
         "server-generated integer keys are allocated in VALUES (resp. ORDER BY sen_counter) order - the documented assumption "
@@ -120,8 +125,8 @@ META = dict(
         "row count 0 is excluded: an empty parameter list is deprecated misuse (SADeprecationWarning), not an executemany",
     ],
     bounds=dict(
-        quick="n in 1..5, page in {1,2,3,4,1000}; all answer plans (<=120 per case); 12 table styles x 10 engine configurations; "
-        "compile-level: n<=5, page in {1,2,3,1000}, 5 dialect/paramstyle pairs",
+        quick="n in 1..5, page in {1,2,3,4,1000}; all answer plans (<=120 per case); 13 table styles x 13 engine configurations x 10 routes; "
+        "compile-level: n in 2..5, page in {1,2,3,1000}, 6 dialect/paramstyle pairs x 5 table styles x 3 routes",
         thorough="n in 1..6 with page in {1,2,3,4,5,1000} and n=7 with page in {1,2,3,4} (all answer plans, <=720 per case); "
         "compile-level: n<=7",
     ),
@@ -219,7 +224,6 @@ _MSSQL = Opts.AUTOINCREMENT | Opts.IDENTITY | Opts.USE_INSERT_FROM_SELECT
 ECFG = {
     "stock-qmark": ("sqlite://", None, None, False, False),
     "stock-named": ("sqlite://", "named", None, False, False),
-    "stock-numeric": ("sqlite+pysqlite_numeric://", None, None, False, False),
     "stock-dollar": ("sqlite+pysqlite_dollar://", None, None, False, False),
     "maria-qmark": ("sqlite://", None, Opts.ANY_AUTOINCREMENT, False, False),
     "maria-named": ("sqlite://", "named", Opts.ANY_AUTOINCREMENT, False, False),
@@ -229,8 +233,13 @@ ECFG = {
     "mssql-dollar": ("sqlite+pysqlite_dollar://", None, _MSSQL, True, False),
     "worv-qmark": ("sqlite://", None, None, False, True),
     "worv-named": ("sqlite://", "named", None, False, True),
+    "maxp-qmark": ("sqlite://", None, Opts.ANY_AUTOINCREMENT, False, False),
+    "maxp-named": ("sqlite://", "named", Opts.ANY_AUTOINCREMENT, False, True),
 }
-ROUTES = ("core_ret", "core_ret_idfirst", "core_unsorted", "core_rd", "core_plain", "orm_add_all", "orm_insert_ret", "orm_bulk_map", "upsert_ret")
+# maxp: dialect.insertmanyvalues_max_parameters scaled down (SQL Server's 2099-parameter limit is the real user of
+# this knob) so that the parameter-count based batch-size reduction is what slices the batches
+MAXP = {"maxp-qmark": 9, "maxp-named": 9}
+ROUTES = ("core_ret", "core_ret_idfirst", "core_unsorted", "core_rd", "core_plain", "orm_add_all", "orm_insert_ret", "orm_insert_plain", "orm_bulk_map", "upsert_ret")
 
 
 def make_engine(ename, page, via):
@@ -246,6 +255,8 @@ def make_engine(ename, page, via):
         eng.dialect.insertmanyvalues_implicit_sentinel = flags
     if worv:
         eng.dialect.use_insertmanyvalues_wo_returning = True
+    if ename in MAXP:
+        eng.dialect.insertmanyvalues_max_parameters = MAXP[ename]
     return eng, px
 
 
@@ -262,7 +273,9 @@ def param_sets(tc, n):
 def _applicable(tc, ename, route):
     if route.startswith("orm") and tc.cls is None:
         return False
-    if ename.startswith("worv") and route != "core_plain":
+    if ename.startswith("worv") and route not in ("core_plain", "orm_insert_plain"):
+        return False
+    if ename == "maxp-named" and route not in ("core_plain", "core_ret", "orm_add_all", "orm_insert_plain"):
         return False
     if route == "upsert_ret" and tc.name not in ("auto_given", "str_given", "composite"):
         return False
@@ -280,19 +293,36 @@ def _keyvals(tc, row_mapping):
     return tuple(row_mapping[k] for k in tc.key)
 
 
-def run_once(tc, ename, route, n, page, via, plan):
-    """execute one case with one answer plan on a fresh engine/database; returns Obs"""
-    GEN.reset()
-    eng, px = make_engine(ename, page, via)
-    o = Obs()
-    o.error = o.returned = o.pk_rows = o.rd_rows = o.obj_keys = None
-    t = tc.table
-    params = param_sets(tc, n)
-    try:
+class Runner:
+    """one case = one fresh engine + database; every answer plan of the case is executed on it after emptying the
+    table (rowids restart, client-side generators are reset), i.e. each plan sees what a new database would show"""
+
+    def __init__(self, tc, ename, route, n, page, via):
+        self.args = (tc, ename, route, n, page, via)
+        self.eng, self.px = make_engine(ename, page, via)
         with warnings.catch_warnings():
             warnings.simplefilter("ignore")
-            t.create(eng)
+            tc.table.create(self.eng)
+        self.first = True
+
+    def close(self):
+        self.eng.dispose()
+
+    def run(self, plan):
+        tc, ename, route, n, page, via = self.args
+        eng, px = self.eng, self.px
+        GEN.reset()
+        o = Obs()
+        o.error = o.returned = o.pk_rows = o.rd_rows = o.obj_keys = None
+        t = tc.table
+        params = param_sets(tc, n)
+        with warnings.catch_warnings():
+            warnings.simplefilter("ignore")
             with eng.connect() as conn:
+                if not self.first:
+                    conn.exec_driver_sql("DELETE FROM %s" % t.name)
+                    conn.commit()
+                self.first = False
                 if via == "execopt":
                     conn = conn.execution_options(insertmanyvalues_page_size=page)
                 if route == "upsert_ret":
@@ -307,14 +337,22 @@ def run_once(tc, ename, route, n, page, via, plan):
                     o.error = e
                 o.batches = tuple(px.batches)
                 o.applied = tuple(px.applied)
-                o.stmts = [(k, s) for k, s, p in px.log if s is not None and s.lstrip().upper().startswith("INSERT")]
+                o.stmts = [(k, s_, len(p_)) for k, s_, p_ in px.log if s_ is not None and s_.lstrip().upper().startswith("INSERT")]
                 px.reset()
                 if conn.in_transaction() and o.error is not None:
                     conn.rollback()
                 o.stored = [dict(r._mapping) for r in conn.execute(select(t))]
+                conn.rollback()
+        return o
+
+
+def run_once(tc, ename, route, n, page, via, plan):
+    """execute one case with one answer plan on a fresh engine/database; returns Obs"""
+    r = Runner(tc, ename, route, n, page, via)
+    try:
+        return r.run(plan)
     finally:
-        eng.dispose()
-    return o
+        r.close()
 
 
 def _do_route(o, tc, conn, eng, route, params):
@@ -348,7 +386,7 @@ def _do_route(o, tc, conn, eng, route, params):
         st = st.on_conflict_do_update(index_elements=keycols, set_={"data": st.excluded.data})
         r = conn.execute(st.returning(t.c.data, *keycols, sort_by_parameter_order=True), params)
         o.returned = [(row[0], tuple(row[1:])) for row in r.all()]
-    elif route in ("orm_add_all", "orm_insert_ret", "orm_bulk_map"):
+    elif route in ("orm_add_all", "orm_insert_ret", "orm_insert_plain", "orm_bulk_map"):
         with Session(bind=conn) as s:
             if route == "orm_add_all":
                 objs = []
@@ -360,6 +398,8 @@ def _do_route(o, tc, conn, eng, route, params):
                 s.add_all(objs)
                 s.flush()
                 o.obj_keys = [(ob.__dict__.get("data"), tuple(ob.__dict__.get(k) for k in tc.key)) for ob in objs]
+            elif route == "orm_insert_plain":
+                s.execute(insert(tc.cls), params)
             elif route == "orm_insert_ret":
                 res = s.execute(insert(tc.cls).returning(tc.cls, sort_by_parameter_order=True), params)
                 o.obj_keys = [(ob.data, tuple(getattr(ob, k) for k in tc.key)) for ob in res.scalars().all()]
@@ -389,7 +429,7 @@ def check(tc, ename, route, n, params, o):
     """returns list of (kind, detail); [] = property holds on this execution"""
     out = []
     markers = [p["data"] for p in params]
-    sorted_route = route not in ("core_unsorted", "core_plain")
+    sorted_route = route not in ("core_unsorted", "core_plain", "orm_insert_plain")
     if o.error is not None:
         if isinstance(o.error, sa_exc.InvalidRequestError) and expected_error_allowed(tc, ename) and route not in ("core_plain", "core_unsorted"):
             if o.stored:
@@ -460,8 +500,15 @@ def check(tc, ename, route, n, params, o):
 
 
 def shape(o):
-    """how the statement was executed: per INSERT statement 'B<k>' batched k VALUES tuples / 'S' single / 'M' executemany"""
-    return tuple(o.batches)
+    """how the statement was executed: per INSERT statement, number of VALUES tuples ('m<k>' = DBAPI executemany of k)"""
+    out = []
+    for kind, sql, np_ in o.stmts:
+        if kind == "executemany":
+            out.append("m%d" % np_)
+        else:
+            i = sql.find("VALUES (")
+            out.append(1 + sql.count("), (", i) if i >= 0 else 1)
+    return tuple(out)
 
 
 # ------------------------------------------------------------------ enumeration
@@ -512,36 +559,46 @@ def run_shard(shard, tier, rec):
         for n, page in n_pages(tier):
             vias = ("engine", "execopt") if route in ("core_ret", "orm_add_all") else ("engine",)
             for via in vias:
-                try:
-                    base = run_once(tc, ename, route, n, page, via, {})
-                except _Skip:
-                    continue
-                params = param_sets(tc, n)
-                plans = answer_plans(base.batches) if base.error is None else [{}]
-                rec.outcome((tname, ename.split("-")[0], route, shape(base), type(base.error).__name__ if base.error else None))
-                for plan in plans:
-                    o = base if not plan else run_once(tc, ename, route, n, page, via, plan)
-                    pkey = tuple(sorted((k, tuple(v)) for k, v in plan.items()))
-                    nontrivial = bool(plan) and len(o.applied) == len(plan)
-                    rec.case((tname, ename, route, n, page, via, pkey), nontrivial=nontrivial)
-                    if plan and tuple(o.batches) != tuple(base.batches) and o.error is None:
-                        rec.violation(_sig("batching-depends-on-answer", tname, ename, route, n, page, via, plan), "batches %r vs %r" % (o.batches, base.batches),
-                                      dict(t=tname, e=ename, route=route, n=n, page=page, via=via, plan={str(k): v for k, v in plan.items()}), kind=("nd", tname, route))
-                    for kind, detail in check(tc, ename, route, n, params, o):
-                        rec.violation(_sig(kind, tname, ename, route, n, page, via, plan), detail + "\nstatements: %r" % (o.stmts[:4],),
-                                      dict(t=tname, e=ename, route=route, n=n, page=page, via=via, plan={str(k): v for k, v in plan.items()}),
-                                      kind=(kind, tname, ename, route))
-                    if nontrivial and len(plan) >= 2 and n == 5 and page == 2:
-                        rec.sample(dict(configuration=ename, table_style=tc.style, route=route, n=n, page=page, batches=list(o.batches),
-                                        answer_plan={str(k): v for k, v in plan.items()}, first_statement=o.stmts[0][1] if o.stmts else None,
-                                        returned=[list(map(str, x)) for x in (o.returned or o.obj_keys or [])][:5]), limit=2)
-                rec.count("executions", len(plans))
-                if any(b > 1 for b in base.batches):
-                    rec.count("cases_batched")
-                elif base.batches:
-                    rec.count("cases_row_at_a_time")
-                if base.error is not None:
-                    rec.count("cases_documented_error")
+                _run_case(rec, tc, tname, ename, route, n, page, via)
+
+
+def _run_case(rec, tc, tname, ename, route, n, page, via):
+    runner = Runner(tc, ename, route, n, page, via)
+    try:
+        base = runner.run({})
+        params = param_sets(tc, n)
+        plans = answer_plans(base.batches) if base.error is None else [{}]
+        rec.outcome((tname, ename.split("-")[0], route, shape(base), type(base.error).__name__ if base.error else None))
+        sh0 = shape(base)
+        for plan in plans:
+            o = base if not plan else runner.run(plan)
+            pkey = tuple(sorted((k, tuple(v)) for k, v in plan.items()))
+            nontrivial = (bool(plan) and len(o.applied) == len(plan)) or (
+                not plan and not base.batches and len(sh0) >= 2 and any(isinstance(b, int) and b > 1 for b in sh0))
+            rec.case((tname, ename, route, n, page, via, pkey), nontrivial=nontrivial)
+            if plan and tuple(o.batches) != tuple(base.batches) and o.error is None:
+                rec.violation(_sig("batching-depends-on-answer", tname, ename, route, n, page, via, plan), "batches %r vs %r" % (o.batches, base.batches),
+                              dict(t=tname, e=ename, route=route, n=n, page=page, via=via, plan={str(k): v for k, v in plan.items()}), kind=("nd", tname, route))
+            for kind, detail in check(tc, ename, route, n, params, o):
+                rec.violation(_sig(kind, tname, ename, route, n, page, via, plan), detail + "\nstatements: %r" % (o.stmts[:4],),
+                              dict(t=tname, e=ename, route=route, n=n, page=page, via=via, plan={str(k): v for k, v in plan.items()}),
+                              kind=(kind, tname, ename, route))
+            if nontrivial and len(plan) >= 2 and n == 5 and page == 2:
+                rec.sample(dict(configuration=ename, table_style=tc.style, route=route, n=n, page=page, batches=list(o.batches),
+                                answer_plan={str(k): v for k, v in plan.items()}, first_statement=o.stmts[0][1] if o.stmts else None,
+                                returned=[list(map(str, x)) for x in (o.returned or o.obj_keys or [])][:5]), limit=2)
+        rec.count("executions", len(plans))
+        sh = shape(base)
+        if any(isinstance(b, int) and b > 1 for b in sh):
+            rec.count("cases_batched_multi_values")
+        elif any(isinstance(b, str) for b in sh):
+            rec.count("cases_dbapi_executemany")
+        elif len(sh) > 1 or n == 1:
+            rec.count("cases_row_at_a_time")
+        if base.error is not None:
+            rec.count("cases_documented_error")
+    finally:
+        runner.close()
 
 
 def replay(case):
@@ -550,8 +607,12 @@ def replay(case):
     tc = TABLES[case["t"]]
     plan = {int(k): list(v) for k, v in case["plan"].items()}
     n, page, via, route, ename = case["n"], case["page"], case["via"], case["route"], case["e"]
-    base = run_once(tc, ename, route, n, page, via, {})
-    o = base if not plan else run_once(tc, ename, route, n, page, via, plan)
+    runner = Runner(tc, ename, route, n, page, via)
+    try:
+        base = runner.run({})
+        o = base if not plan else runner.run(plan)
+    finally:
+        runner.close()
     res = []
     if plan and tuple(o.batches) != tuple(base.batches) and o.error is None:
         res.append((_sig("batching-depends-on-answer", case["t"], ename, route, n, page, via, plan), "batches %r vs %r" % (o.batches, base.batches)))
